@@ -109,7 +109,8 @@ GEN = LEAN / "RxModel" / "Gen"
 # tie modules that need the compiler's own macro expansion of the crate (nightly `-Zunpretty=expanded`)
 EXPANDED_TIES = ("RxModel.GenTie.Subject", "RxModel.GenTie.SubjectThreads", "RxModel.GenTie.Behavior",
                  "RxModel.GenTie.BehaviorThreads", "RxModel.GenTie.Subscription", "RxModel.GenTie.GroupBy", "RxModel.GenTie.MergeAll",
-                 "RxModel.GenTie.MergeAllThreads")
+                 "RxModel.GenTie.MergeAllThreads") + tuple(
+    f"RxModel.GenTie.{w}{m}{t}" for w in ("", "Wiring") for m in ("Delay", "ObserveOn") for t in ("", "Threads"))
 
 
 def expanded_source():
